@@ -16,6 +16,8 @@ ENGINES = [
      "kind_free_text": "async_mutex on a manually polled io_context vs FIFO model, exhaustive short sequences + random, ASan+UBSan"},
     {"name": "codec_probe", "path": "src/probes/codec_probe.cpp", "serves_properties": ["C17", "C18", "C19"],
      "kind_free_text": "library encoders/decoders vs independent reference codec (src/ref), guard-page placement of hostile packets, ASan+UBSan"},
+    {"name": "simcheck", "path": "src/sim", "serves_properties": ["C01", "C02", "C03", "C04", "C05", "C06", "C07", "C08", "C09", "C10", "C11", "C12", "C13", "C14", "C15", "C16", "C19"],
+     "kind_free_text": "the real mqtt_client instantiated on a simulated stream in virtual time (timer/clock token interposition, no library edit beyond the resolve hook), a protocol-level broker model on the reference codec, fault plans, crash-point and idle-point sweeps, event-history monitors; clang ASan+UBSan"},
 ]
 
 # property -> (level category, level text, level note, technique, engine)
@@ -50,6 +52,30 @@ CLAIMS = {
             "runtime monitoring: exhaustive input sweep under AddressSanitizer + reference-table oracle", "rc_probe"),
 }
 
+SIM_NOTE = "simulated transport and broker model are the environment model; virtual time via token interposition; asio handler order is FIFO"
+SIM_TECH = "runtime monitoring: offline checker over the recorded wire/API history of the real client in a virtual-time simulated network, ASan/UBSan"
+CLAIMS.update({
+    "C01": ("exploration", "successful QoS 1/2 completions are checked against the broker-side history (request as sent, genuine final ack delivered before completion, handler values equal the ack's) over thousands of seeded schedules with faults, reordering, chunking, id collisions and forged acks at quiescent points", SIM_NOTE, SIM_TECH, "simcheck"),
+    "C02": ("fault_enumeration", "every byte boundary of reference workloads is used as a crash point (both directions, plus 'delivered but reported failed'), crossed with outcomes of the next attempt; bounded-liveness oracle after a fault-free suffix of 120 virtual seconds", SIM_NOTE + "; 'eventually' decided as 'within 120 virtual seconds'", SIM_TECH + "; exhaustive single-fault enumeration per workload", "simcheck"),
+    "C03": ("exploration", "per-publish transmission histories (bytes, DUP, write results, PUBREL position) from crash-point sweeps and QoS 2 heavy seeded mixes are checked against the sender discipline", SIM_NOTE, SIM_TECH, "simcheck"),
+    "C04": ("exploration", "the broker model sends tagged QoS 0/1/2 messages and retransmits like a conformant sender; acknowledgement and delivery histories are checked; four genuine defects of the current tree are recorded as known findings with exact keys", SIM_NOTE, SIM_TECH, "simcheck"),
+    "C05": ("exploration", "terminal actions at every idle point of base scenarios; exactly-once / not-inline / drained-without-time-advance are observed directly (counting functors, io_context::stopped())", SIM_NOTE, SIM_TECH + "; enumerated interleaving points", "simcheck"),
+    "C06": ("exploration", "wire order of PUBLISH packets per connection vs initiation order under bursts, throttling, out-of-order acks and reconnects", SIM_NOTE, SIM_TECH, "simcheck"),
+    "C07": ("exploration", "open-exchange count at the client's edge vs the connection's Receive Maximum at every offered PUBLISH, plus a bounded-progress rule at idle points", SIM_NOTE, SIM_TECH, "simcheck"),
+    "C09": ("exploration", "async_disconnect at every idle point of base scenarios: position and solitude of the DISCONNECT, 5.000 s bound in virtual time, silence afterwards", SIM_NOTE, SIM_TECH + "; enumerated interleaving points", "simcheck"),
+    "C10": ("exploration", "CONNECT contents vs configuration (independent decoder), CONNACK gate, exact 5 s abandonment, rotation/back-off envelope over random configurations and outcome sequences", SIM_NOTE, SIM_TECH, "simcheck"),
+    "C12": ("exploration", "PINGREQ deadlines and exact 1.5*K read timeout in virtual time over keep-alive values, Server Keep Alive overrides and silence patterns", SIM_NOTE, SIM_TECH, "simcheck"),
+    "C13": ("exploration", "session_expired deliveries vs a three-line model replayed over the history", SIM_NOTE, SIM_TECH, "simcheck"),
+    "C14": ("exploration", "as C01 for SUBACK/UNSUBACK, one reason code per topic", SIM_NOTE, SIM_TECH, "simcheck"),
+    "C15": ("exploration", "all 64 capability combinations x boundary requests; broker-side check of every packet against the announced capabilities; refusal immediacy, code and silence on the application side; identifier-leak scenario", SIM_NOTE, SIM_TECH + "; exhaustive over capability on/off combinations", "simcheck"),
+})
+for _p, _extra in {"C08": "allocator unit level + wire-history uniqueness and a full exhaustion scenario through the real client",
+                   "C11": "lock unit level + online single-flight monitor in the simulated transport",
+                   "C16": "validator unit level + public API refusals/acceptances on a real, unconnected client",
+                   "C19": "decoder unit level + whole-client behaviour under hostile byte streams in four phases and three chunkings"}.items():
+    c = CLAIMS[_p]
+    CLAIMS[_p] = (c[0], c[1] + "; " + _extra, c[2].replace("; unit level (allocator) in this round, live-exchange uniqueness is added by the simulator part", "").replace("; unit level (the lock) in this round, single-flight connection attempts are added by the simulator part", "").replace("; unit level (validators) in this round", "").replace("; unit level (decoders) in this round", "") + "; " + SIM_NOTE, c[3] + " + " + SIM_TECH, c[4] + "+simcheck")
+
 NOT_YET = "check not built yet in this round (simulator engine in progress, see DESIGN.md section 10); no other technique is substituted"
 
 m = {
@@ -65,7 +91,7 @@ m = {
     "engines": ENGINES,
     "checks": [],
     "not_applicable": [],
-    "notes": "Technique family: runtime monitoring and sanitizers. See DESIGN.md. Repairs of genuine defects: /repo commits 51263be 0ede6c0 3c6a6ad 442a416 eb0b0f0 324dfe9 (known_findings.json, 'fixed').",
+    "notes": "Technique family: runtime monitoring and sanitizers. See DESIGN.md. Repairs of genuine defects: /repo commits 51263be 0ede6c0 3c6a6ad 442a416 eb0b0f0 324dfe9 d28fa47 (known_findings.json, 'fixed'); recorded findings F6 F7 F9 F10 (known_findings.json, 'findings').",
 }
 for p in props:
     pid = p["id"]
